@@ -131,7 +131,7 @@ def eventV1_eventV1_HistoryVisibility : List String := [
   "return \"\", fmt.Errorf(\"gomatrixserverlib: HistoryVisibility() event is not a m.room.history_visibility event, bad state key\")",
   "}",
   "var content HistoryVisibilityContent",
-  "if err := json.Unmarshal(e.eventFields.Content, &content); err != nil {",
+  "if err := json.Unmarshal(exactMembersOnly(e.eventFields.Content, &content), &content); err != nil {",
   "return \"\", err",
   "}",
   "return content.HistoryVisibility, nil"
@@ -157,7 +157,7 @@ def eventV1_eventV1_JoinRule : List String := [
   "return \"\", fmt.Errorf(\"gomatrixserverlib: JoinRule() event is not a m.room.join_rules event, bad state key\")",
   "}",
   "var content JoinRuleContent",
-  "if err := json.Unmarshal(e.eventFields.Content, &content); err != nil {",
+  "if err := json.Unmarshal(exactMembersOnly(e.eventFields.Content, &content), &content); err != nil {",
   "return \"\", err",
   "}",
   "return content.JoinRule, nil"
@@ -837,8 +837,12 @@ def event_builder_EventBuilder_Build : List String := [
   "eventStruct.Origin = origin",
   "switch eventFormat {",
   "case EventFormatV1:",
-  "eventStruct.PrevEvents = toEventReference(eventStruct.PrevEvents)",
-  "eventStruct.AuthEvents = toEventReference(eventStruct.AuthEvents)",
+  "if eventStruct.PrevEvents, err = eventReferencesFrom(eventStruct.PrevEvents); err != nil {",
+  "return nil, fmt.Errorf(\"EventBuilder.Build: prev_events: %w\", err)",
+  "}",
+  "if eventStruct.AuthEvents, err = eventReferencesFrom(eventStruct.AuthEvents); err != nil {",
+  "return nil, fmt.Errorf(\"EventBuilder.Build: auth_events: %w\", err)",
+  "}",
   "case EventFormatV2:",
   "switch prevEvents := eventStruct.PrevEvents.(type) { case []string: eventStruct.PrevEvents = prevEvents case nil: eventStruct.PrevEvents = []string{} }",
   "switch authEvents := eventStruct.AuthEvents.(type) { case []string: eventStruct.AuthEvents = authEvents case nil: eventStruct.AuthEvents = []string{} }",
@@ -864,6 +868,9 @@ def event_builder_EventBuilder_Build : List String := [
   "if eventJSON, err = EnforcedCanonicalJSON(eventJSON, eb.version.Version()); err != nil {",
   "return",
   "}",
+  "if err = checkUntrustedEventJSON(eventJSON); err != nil {",
+  "return nil, err",
+  "}",
   "res, err := eb.version.NewEventFromTrustedJSON(eventJSON, false)",
   "if err != nil {",
   "return nil, err",
@@ -887,15 +894,35 @@ def event_builder_EventBuilder_SetUnsigned : List String := [
 def event_builder__eventHashFromEventID : List String := [
   "func func(eventID string) spec.Base64Bytes",
   "var sha spec.Base64Bytes",
+  "if len(eventID) == 0 {",
+  "return sha",
+  "}",
   "if err := sha.Decode(eventID[1:]); err != nil {",
   "return sha",
   "}",
   "return sha"
 ]
 
+def event_builder__eventReferenceFromEventID : List String := [
+  "func func(eventID string) (eventReference, error)",
+  "if len(eventID) == 0 || eventID[0] != '$' {",
+  "return eventReference{}, fmt.Errorf(\"gomatrixserverlib: invalid event ID %q\", eventID)",
+  "}",
+  "return eventReference{EventID: eventID, EventSHA256: eventHashFromEventID(eventID)}, nil"
+]
+
+def event_builder__eventReferencesFrom : List String := [
+  "func func(data any) ([]eventReference, error)",
+  "switch evs := data.(type) { case nil: return []eventReference{}, nil case []string: newEvents := make([]eventReference, 0, len(evs)) for _, eventID := range evs { ref, err := eventReferenceFromEventID(eventID) if err != nil { return nil, err } newEvents = append(newEvents, ref) } return newEvents, nil case []eventReference: return evs, nil case []interface{}: evRefs := make([]eventReference, 0, len(evs)) for _, b := range evs { evID, ok := b.(string) if !ok { ev, isList := b.([]interface{}) if !isList { continue } if len(ev) == 0 { return nil, fmt.Errorf(\"gomatrixserverlib: empty event reference\") } if evID, ok = ev[0].(string); !ok { return nil, fmt.Errorf(\"gomatrixserverlib: event reference must start with an event ID, got %T\", ev[0]) } } ref, err := eventReferenceFromEventID(evID) if err != nil { return nil, err } evRefs = append(evRefs, ref) } return evRefs, nil default: return []eventReference{}, nil }"
+]
+
 def event_builder__toEventReference : List String := [
   "func func(data any) []eventReference",
-  "switch evs := data.(type) { case nil: return []eventReference{} case []string: newEvents := make([]eventReference, 0, len(evs)) for _, eventID := range evs { newEvents = append(newEvents, eventReference{EventID: eventID, EventSHA256: eventHashFromEventID(eventID)}) } return newEvents case []eventReference: return evs case []interface{}: evRefs := make([]eventReference, 0, len(evs)) for _, b := range evs { evID, ok := b.(string) if ok { evRefs = append(evRefs, eventReference{EventID: evID, EventSHA256: eventHashFromEventID(evID)}) continue } ev, ok := b.([]interface{}) if ok { evRefs = append(evRefs, eventReference{EventID: ev[0].(string), EventSHA256: eventHashFromEventID(ev[0].(string))}) continue } } return evRefs default: return []eventReference{} }"
+  "refs, err := eventReferencesFrom(data)",
+  "if err != nil {",
+  "return []eventReference{}",
+  "}",
+  "return refs"
 ]
 
 def eventcrypto__VerifyAllEventSignatures : List String := [
@@ -1267,6 +1294,6 @@ def pdu_eventReference_UnmarshalJSON : List String := [
   "return nil"
 ]
 
-def functions : List String := ["eventV1.go:.newEventFromTrustedJSONV1", "eventV1.go:.newEventFromTrustedJSONWithEventIDV1", "eventV1.go:.newEventFromUntrustedJSONV1", "eventV1.go:.signableEventJSON", "eventV1.go:eventV1.AuthEventIDs", "eventV1.go:eventV1.Content", "eventV1.go:eventV1.Depth", "eventV1.go:eventV1.EventID", "eventV1.go:eventV1.HistoryVisibility", "eventV1.go:eventV1.IsSticky", "eventV1.go:eventV1.JSON", "eventV1.go:eventV1.JoinRule", "eventV1.go:eventV1.MarshalJSON", "eventV1.go:eventV1.Membership", "eventV1.go:eventV1.OriginServerTS", "eventV1.go:eventV1.PowerLevels", "eventV1.go:eventV1.PrevEventIDs", "eventV1.go:eventV1.Redact", "eventV1.go:eventV1.Redacted", "eventV1.go:eventV1.Redacts", "eventV1.go:eventV1.RoomID", "eventV1.go:eventV1.SenderID", "eventV1.go:eventV1.SetUnsigned", "eventV1.go:eventV1.SetUnsignedField", "eventV1.go:eventV1.Sign", "eventV1.go:eventV1.StateKey", "eventV1.go:eventV1.StateKeyEquals", "eventV1.go:eventV1.StickyEndTime", "eventV1.go:eventV1.ToHeaderedJSON", "eventV1.go:eventV1.Type", "eventV1.go:eventV1.Unsigned", "eventV1.go:eventV1.Version", "eventV1.go:eventV1.assumedStickyStartTime", "eventV1.go:eventV1.calculatedStickyEndTime", "eventV2.go:.CheckFields", "eventV2.go:.newEventFromTrustedJSONV2", "eventV2.go:.newEventFromTrustedJSONWithEventIDV2", "eventV2.go:.newEventFromUntrustedJSONV2", "eventV2.go:eventV2.AuthEventIDs", "eventV2.go:eventV2.EventID", "eventV2.go:eventV2.MarshalJSON", "eventV2.go:eventV2.PrevEventIDs", "eventV2.go:eventV2.Redact", "eventV2.go:eventV2.SenderID", "eventV2.go:eventV2.SetUnsigned", "eventV2.go:eventV2.Sign", "eventV2.go:eventV2.populateEventID", "eventV3.go:.checkRoomID", "eventV3.go:.newEventFromTrustedJSONV3", "eventV3.go:.newEventFromTrustedJSONWithEventIDV3", "eventV3.go:.newEventFromUntrustedJSONV3", "eventV3.go:eventV3.AuthEventIDs", "eventV3.go:eventV3.RoomID", "eventV3.go:eventV3.SetUnsigned", "eventV3.go:eventV3.Sign", "event_builder.go:EventBuilder.AddAuthEvents", "event_builder.go:EventBuilder.Build", "event_builder.go:EventBuilder.SetContent", "event_builder.go:EventBuilder.SetUnsigned", "event_builder.go:.eventHashFromEventID", "event_builder.go:.toEventReference", "eventcrypto.go:.VerifyAllEventSignatures", "eventcrypto.go:.VerifyEventSignatures", "eventcrypto.go:.addContentHashesToEvent", "eventcrypto.go:.checkEventContentHash", "eventcrypto.go:.emptyAuthorisedViaServerName", "eventcrypto.go:.extractAuthorisedViaServerName", "eventcrypto.go:.getMXIDMapping", "eventcrypto.go:.membershipForSignatures", "eventcrypto.go:.referenceOfEvent", "eventcrypto.go:.referenceOfEventForVersion", "eventcrypto.go:.signEvent", "eventcrypto.go:.validateMXIDMappingSignatures", "pdu.go:.ToPDUs", "pdu.go:eventReference.MarshalJSON", "pdu.go:eventReference.UnmarshalJSON"]
+def functions : List String := ["eventV1.go:.newEventFromTrustedJSONV1", "eventV1.go:.newEventFromTrustedJSONWithEventIDV1", "eventV1.go:.newEventFromUntrustedJSONV1", "eventV1.go:.signableEventJSON", "eventV1.go:eventV1.AuthEventIDs", "eventV1.go:eventV1.Content", "eventV1.go:eventV1.Depth", "eventV1.go:eventV1.EventID", "eventV1.go:eventV1.HistoryVisibility", "eventV1.go:eventV1.IsSticky", "eventV1.go:eventV1.JSON", "eventV1.go:eventV1.JoinRule", "eventV1.go:eventV1.MarshalJSON", "eventV1.go:eventV1.Membership", "eventV1.go:eventV1.OriginServerTS", "eventV1.go:eventV1.PowerLevels", "eventV1.go:eventV1.PrevEventIDs", "eventV1.go:eventV1.Redact", "eventV1.go:eventV1.Redacted", "eventV1.go:eventV1.Redacts", "eventV1.go:eventV1.RoomID", "eventV1.go:eventV1.SenderID", "eventV1.go:eventV1.SetUnsigned", "eventV1.go:eventV1.SetUnsignedField", "eventV1.go:eventV1.Sign", "eventV1.go:eventV1.StateKey", "eventV1.go:eventV1.StateKeyEquals", "eventV1.go:eventV1.StickyEndTime", "eventV1.go:eventV1.ToHeaderedJSON", "eventV1.go:eventV1.Type", "eventV1.go:eventV1.Unsigned", "eventV1.go:eventV1.Version", "eventV1.go:eventV1.assumedStickyStartTime", "eventV1.go:eventV1.calculatedStickyEndTime", "eventV2.go:.CheckFields", "eventV2.go:.newEventFromTrustedJSONV2", "eventV2.go:.newEventFromTrustedJSONWithEventIDV2", "eventV2.go:.newEventFromUntrustedJSONV2", "eventV2.go:eventV2.AuthEventIDs", "eventV2.go:eventV2.EventID", "eventV2.go:eventV2.MarshalJSON", "eventV2.go:eventV2.PrevEventIDs", "eventV2.go:eventV2.Redact", "eventV2.go:eventV2.SenderID", "eventV2.go:eventV2.SetUnsigned", "eventV2.go:eventV2.Sign", "eventV2.go:eventV2.populateEventID", "eventV3.go:.checkRoomID", "eventV3.go:.newEventFromTrustedJSONV3", "eventV3.go:.newEventFromTrustedJSONWithEventIDV3", "eventV3.go:.newEventFromUntrustedJSONV3", "eventV3.go:eventV3.AuthEventIDs", "eventV3.go:eventV3.RoomID", "eventV3.go:eventV3.SetUnsigned", "eventV3.go:eventV3.Sign", "event_builder.go:EventBuilder.AddAuthEvents", "event_builder.go:EventBuilder.Build", "event_builder.go:EventBuilder.SetContent", "event_builder.go:EventBuilder.SetUnsigned", "event_builder.go:.eventHashFromEventID", "event_builder.go:.eventReferenceFromEventID", "event_builder.go:.eventReferencesFrom", "event_builder.go:.toEventReference", "eventcrypto.go:.VerifyAllEventSignatures", "eventcrypto.go:.VerifyEventSignatures", "eventcrypto.go:.addContentHashesToEvent", "eventcrypto.go:.checkEventContentHash", "eventcrypto.go:.emptyAuthorisedViaServerName", "eventcrypto.go:.extractAuthorisedViaServerName", "eventcrypto.go:.getMXIDMapping", "eventcrypto.go:.membershipForSignatures", "eventcrypto.go:.referenceOfEvent", "eventcrypto.go:.referenceOfEventForVersion", "eventcrypto.go:.signEvent", "eventcrypto.go:.validateMXIDMappingSignatures", "pdu.go:.ToPDUs", "pdu.go:eventReference.MarshalJSON", "pdu.go:eventReference.UnmarshalJSON"]
 
 end VPins.C03
